@@ -216,6 +216,7 @@ struct Agg {
 	errno: u64,
 	snaps_proc: u64,
 	snaps_power: u64,
+	trunc_reverted: u64,
 	monitor_checks: u64,
 	io_faults: u64,
 	logfuzz: u64,
@@ -265,6 +266,7 @@ impl Agg {
 		self.errno += c.errno_injected;
 		self.snaps_proc += c.snapshots_proc;
 		self.snaps_power += c.snapshots_power;
+		self.trunc_reverted += c.trunc_reverted;
 		self.monitor_checks += c.monitor_checks;
 	}
 
@@ -282,7 +284,7 @@ impl Agg {
 			"probes": self.probes, "crash_points": self.crash_points,
 			"events": self.events, "by_kind": self.by_kind.to_vec(),
 			"short_reads": self.short_reads, "short_writes": self.short_writes, "eintr": self.eintr,
-			"errno": self.errno, "snaps_proc": self.snaps_proc, "snaps_power": self.snaps_power,
+			"errno": self.errno, "snaps_proc": self.snaps_proc, "snaps_power": self.snaps_power, "trunc_reverted": self.trunc_reverted,
 			"monitor_checks": self.monitor_checks, "io_faults": self.io_faults, "logfuzz": self.logfuzz,
 			"recovered_lt_u": self.recovered_lt_u,
 			"samples": self.samples, "violations": self.violations, "harness_errors": self.harness_errors,
@@ -787,6 +789,7 @@ fn cmd_check(args: &[String]) -> i32 {
 	let faults = json!({
 		"crash.proc_images": sum("snaps_proc"),
 		"crash.power_images": sum("snaps_power"),
+		"crash.power_images_with_an_unsynced_log_truncation_undone": sum("trunc_reverted"),
 		"power_images_with_dropped_pages": sum("power_dropped"),
 		"power_images_with_cut_log_tail": sum("power_cut"),
 		"images_taken_during_recovery": sum("images_recovery"),
